@@ -57,6 +57,7 @@ type Unit struct {
 	OASFiles map[string]string
 	Diags    []Diag
 	Glue     bool
+	Locs     []string // instrumented shared locations (Options.Instrument)
 }
 
 // Healthy: generated without plugin errors and compiled + vetted cleanly.
@@ -73,6 +74,10 @@ type Options struct {
 	// MockShim redirects math/rand and crypto/rand in the emitted *_http_mock.pb.go to verif/mc/vrand so that
 	// the explorer owns the mock's random choices (the unmodified file is what C13/C20 compile).
 	MockShim bool
+	// Instrument rewrites the emitted files for the controlled scheduler (C17).
+	Instrument bool
+	// Race links the harness with the Go race detector (supplementary free-running pass of C17).
+	Race bool
 	Tag     string
 }
 
@@ -196,7 +201,7 @@ func Build(bins *plug.Bins, specs []*spec.Spec, o Options) (*Workspace, error) {
 			return nil, err
 		}
 		if o.Harness {
-			if err := w.link(); err != nil {
+			if err := w.link(o.Race); err != nil {
 				return nil, err
 			}
 		}
@@ -341,6 +346,21 @@ func (w *Workspace) generate(u *Unit, gengo string, o Options) error {
 			return err
 		}
 		u.Glue = len(glue) > 0
+	}
+	if o.Instrument && len(u.GenErr) == 0 {
+		seen := map[string]bool{}
+		for name := range u.GenFiles {
+			d := filepath.Join(w.modDir(), filepath.Dir(name))
+			if seen[d] {
+				continue
+			}
+			seen[d] = true
+			locs, err := Instrument(d)
+			if err != nil {
+				return fmt.Errorf("harness error: instrumenting %s: %w", u.Name, err)
+			}
+			u.Locs = append(u.Locs, locs...)
+		}
 	}
 	return nil
 }
@@ -507,7 +527,7 @@ func declAt(path string, line int) string {
 }
 
 // link builds the harness binary importing every healthy unit that has glue.
-func (w *Workspace) link() error {
+func (w *Workspace) link(race bool) error {
 	var b strings.Builder
 	b.WriteString("package main\n\nimport (\n\t\"verif/mc/rt\"\n")
 	for _, u := range w.Units {
@@ -524,7 +544,11 @@ func (w *Workspace) link() error {
 		return err
 	}
 	w.Harness = filepath.Join(w.Dir, "harness")
-	out, err := w.goCmd("build", "-o", w.Harness, "./cmd/harness")
+	args := []string{"build"}
+	if race {
+		args = append(args, "-race")
+	}
+	out, err := w.goCmd(append(args, "-o", w.Harness, "./cmd/harness")...)
 	if err != nil {
 		return fmt.Errorf("harness error: linking harness: %v\n%s", err, short(string(out), 4000))
 	}
